@@ -763,7 +763,7 @@ macro_rules! impl_rand_traits_hwb_cone {
         #[cfg(feature = "random")]
         impl<$($ty_param,)* T> rand::distributions::uniform::SampleUniform for $ty<$($ty_param,)* T>
         where
-            T: crate::num::MinMax + Clone + rand::distributions::uniform::SampleUniform,
+            T: crate::num::MinMax + crate::num::Zero + Clone + rand::distributions::uniform::SampleUniform,
             $hsv_ty<$($ty_param,)* T>: crate::convert::FromColorUnclamped<$ty<$($ty_param,)* T>> + rand::distributions::uniform::SampleBorrow<$hsv_ty<$($ty_param,)* T>>,
             $ty<$($ty_param,)* T>: crate::convert::FromColorUnclamped<$hsv_ty<$($ty_param,)* T>>,
             $hsv_uniform_ty<$($ty_param,)* T>: rand::distributions::uniform::UniformSampler<X = $hsv_ty<$($ty_param,)* T>>,
@@ -774,7 +774,7 @@ macro_rules! impl_rand_traits_hwb_cone {
         #[cfg(feature = "random")]
         impl<$($ty_param,)* T> rand::distributions::uniform::UniformSampler for $uniform_ty<$($ty_param,)* T>
         where
-            T: crate::num::MinMax + Clone + rand::distributions::uniform::SampleUniform,
+            T: crate::num::MinMax + crate::num::Zero + Clone + rand::distributions::uniform::SampleUniform,
             $hsv_ty<$($ty_param,)* T>: crate::convert::FromColorUnclamped<$ty<$($ty_param,)* T>> + rand::distributions::uniform::SampleBorrow<$hsv_ty<$($ty_param,)* T>>,
             $ty<$($ty_param,)* T>: crate::convert::FromColorUnclamped<$hsv_ty<$($ty_param,)* T>>,
             $hsv_uniform_ty<$($ty_param,)* T>: rand::distributions::uniform::UniformSampler<X = $hsv_ty<$($ty_param,)* T>>,
@@ -790,7 +790,10 @@ macro_rules! impl_rand_traits_hwb_cone {
                 let low_input = $hsv_ty::from_color_unclamped(low_b.borrow().clone());
                 let high_input = $hsv_ty::from_color_unclamped(high_b.borrow().clone());
 
-                let (low_saturation, high_saturation) = low_input.saturation.min_max(high_input.saturation);
+                // Rounding in the conversion can leave the saturation of a gray
+                // slightly below zero, where squaring it reverses the order.
+                let (low_saturation, high_saturation) = low_input.saturation.max(T::zero())
+                    .min_max(high_input.saturation.max(T::zero()));
                 let (low_value, high_value) = low_input.value.min_max(high_input.value);
 
                 let low = $hsv_ty{
@@ -823,7 +826,10 @@ macro_rules! impl_rand_traits_hwb_cone {
                 let low_input = $hsv_ty::from_color_unclamped(low_b.borrow().clone());
                 let high_input = $hsv_ty::from_color_unclamped(high_b.borrow().clone());
 
-                let (low_saturation, high_saturation) = low_input.saturation.min_max(high_input.saturation);
+                // Rounding in the conversion can leave the saturation of a gray
+                // slightly below zero, where squaring it reverses the order.
+                let (low_saturation, high_saturation) = low_input.saturation.max(T::zero())
+                    .min_max(high_input.saturation.max(T::zero()));
                 let (low_value, high_value) = low_input.value.min_max(high_input.value);
 
                 let low = $hsv_ty{
